@@ -159,6 +159,7 @@ class Call:
         self.exc = None
         self.t_start = None
         self.t_done = None
+        self.step_done = None
 
 
 def qs(**kw):
